@@ -25,7 +25,8 @@ import (
 // FInst is the static description of one service instance.
 type FInst struct {
 	ID          string // abstract id used by the specification ("a1")
-	Node        string
+	Node        string // abstract node id used by the specification ("n1")
+	NodeName    string // node name on the wire ("" = Node)
 	NodeAddr    string
 	ServiceID   string
 	ServiceName string
@@ -41,6 +42,7 @@ type FakeConsul struct {
 	Srv    *httptest.Server
 	Insts  map[string]*FInst
 	Nodes  map[string]string // node -> node address
+	Names  map[string]string // node -> node name on the wire
 	inst   map[string]string // abstract instance state
 	node   map[string]string // abstract node state
 	kvAbs  string            // abstract manual text name
@@ -63,7 +65,7 @@ type FakeConsul struct {
 }
 
 func NewFakeConsul(insts []*FInst, kvTexts map[string]string, tr *Trace) *FakeConsul {
-	f := &FakeConsul{Insts: map[string]*FInst{}, Nodes: map[string]string{}, inst: map[string]string{},
+	f := &FakeConsul{Insts: map[string]*FInst{}, Nodes: map[string]string{}, Names: map[string]string{}, inst: map[string]string{},
 		node: map[string]string{}, kvAbs: "none", kvText: kvTexts, KVPath: "fabio/config",
 		hidx: 1, kidx: 1, T: tr, FailStatus: "critical", parkedH: map[uint64]int{}, parkedK: map[uint64]int{}}
 	f.cond = sync.NewCond(&f.mu)
@@ -71,6 +73,10 @@ func NewFakeConsul(insts []*FInst, kvTexts map[string]string, tr *Trace) *FakeCo
 		f.Insts[i.ID] = i
 		f.inst[i.ID] = "absent"
 		f.Nodes[i.Node] = i.NodeAddr
+		f.Names[i.Node] = i.Node
+		if i.NodeName != "" {
+			f.Names[i.Node] = i.NodeName
+		}
 		f.node[i.Node] = "ok"
 	}
 	f.Srv = httptest.NewServer(http.HandlerFunc(f.serve))
@@ -274,9 +280,9 @@ func (f *FakeConsul) checksLocked() []fCheck {
 		if f.node[n] == "serfdown" {
 			st = "critical"
 		}
-		cs = append(cs, fCheck{Node: n, CheckID: "serfHealth", Name: "Serf Health Status", Status: st})
+		cs = append(cs, fCheck{Node: f.Names[n], CheckID: "serfHealth", Name: "Serf Health Status", Status: st})
 		if f.node[n] == "maint" {
-			cs = append(cs, fCheck{Node: n, CheckID: "_node_maintenance", Name: "Node Maintenance Mode", Status: "critical"})
+			cs = append(cs, fCheck{Node: f.Names[n], CheckID: "_node_maintenance", Name: "Node Maintenance Mode", Status: "critical"})
 		}
 	}
 	var ids []string
@@ -294,10 +300,10 @@ func (f *FakeConsul) checksLocked() []fCheck {
 		if st == "fail" {
 			status = f.FailStatus
 		}
-		cs = append(cs, fCheck{Node: i.Node, CheckID: "service:" + i.ServiceID, Name: "check " + i.ServiceID, Status: status,
+		cs = append(cs, fCheck{Node: f.Names[i.Node], CheckID: "service:" + i.ServiceID, Name: "check " + i.ServiceID, Status: status,
 			ServiceID: i.ServiceID, ServiceName: i.ServiceName, ServiceTags: f.tagsLocked(i)})
 		if st == "maint" {
-			cs = append(cs, fCheck{Node: i.Node, CheckID: "_service_maintenance:" + i.ServiceID, Name: "Service Maintenance Mode",
+			cs = append(cs, fCheck{Node: f.Names[i.Node], CheckID: "_service_maintenance:" + i.ServiceID, Name: "Service Maintenance Mode",
 				Status: "critical", ServiceID: i.ServiceID, ServiceName: i.ServiceName, ServiceTags: f.tagsLocked(i)})
 		}
 	}
@@ -359,7 +365,7 @@ func (f *FakeConsul) serveCatalog(w http.ResponseWriter, r *http.Request, name s
 		if i.ServiceName != name || f.inst[id] == "absent" {
 			continue
 		}
-		out = append(out, cs{ID: "id-" + i.Node, Node: i.Node, Address: i.NodeAddr, Datacenter: "dc1", ServiceID: i.ServiceID,
+		out = append(out, cs{ID: "id-" + i.Node, Node: f.Names[i.Node], Address: i.NodeAddr, Datacenter: "dc1", ServiceID: i.ServiceID,
 			ServiceName: i.ServiceName, ServiceAddress: i.Addr, ServiceTags: f.tagsLocked(i), ServicePort: i.Port})
 	}
 	cur := f.hidx
